@@ -118,3 +118,18 @@ def le (a b : VClock α) : Prop := ∀ x, a.get x ≤ b.get x
 
 end VClock
 end Crdt
+
+namespace Crdt
+/-- clocks are ordered through their entry lists (needed where a clock is a map key: `deferred`) -/
+instance {α : Type} [LinOrd α] : LinOrd (VClock α) where
+  lt := fun a b => LinOrd.lt a.dots b.dots
+  decLt := fun a b => LinOrd.decLt a.dots b.dots
+  decEq := inferInstance
+  irrefl := fun a => LinOrd.irrefl a.dots
+  trans := fun h1 h2 => LinOrd.trans h1 h2
+  tri := fun a b => by
+    rcases LinOrd.tri a.dots b.dots with h | h | h
+    · exact Or.inl h
+    · refine Or.inr (Or.inl ?_); cases a; cases b; simp at h; subst h; rfl
+    · exact Or.inr (Or.inr h)
+end Crdt
